@@ -16,7 +16,8 @@ from ..harness import Violation
 
 PROP = "C17"
 FORMATS = ["tabs", "lines", "list", "csv", "json", "html"]
-CONTENT_COLS = ["sha1", "sha256", "sha512", "sha3", "line_count", "is_shebang", "contains('ab')"]
+CONTENT_COLS = ["sha1", "sha256", "sha512", "sha3", "line_count", "is_shebang", "contains('ab')", "has_xattrs", "capabilities"]
+XCOLS = ("has_xattrs", "capabilities")  # need the file opened, not read
 
 _ERR = re.compile(r"^\d+ (opendir|realpath|readdir|lstat|stat) (\S+) (\S+) (?:@\d+ )?-> err (\d+)")
 _MUT = re.compile(r"^\d+ mutate (\w+) after (\w+) (\S+) inj:mutate")
@@ -201,6 +202,11 @@ class Check:
                   "ign": rng.choice(["", "", "", "hg", "docker"])}]
         _, env = gen.gen_env(rng, world)
         nm = gen.node_map(world)
+        for f in files:
+            # real extended attributes, so that has_xattrs / capabilities have something to lose or to leak
+            if rng.random() < 0.4:
+                nm[f]["xattrs"] = rng.choice([{"user.k": "v"}, {"security.capability": "\x01\x00\x00\x02\x00\x04\x00\x00\x00\x00\x00\x00\x00\x00\x00\x00\x00\x00\x00\x00"},
+                                              {"security.capability": "\x00\x00\x00\x02\x01\x00\x00\x00\x01\x00\x00\x00\x00\x01\x00\x00\x00\x00\x00\x00", "user.z": ""}])
         faults = []
         kind = rng.choice(["open", "open", "read", "read", "short_only", "vanish", "fifo", "dangling", "readlink", "lstat_fail", "vanish_before_stat"])
         if kind == "fifo":
@@ -756,7 +762,10 @@ class Check:
                 off = f["fail"].get("arg", 0) if "fail" in f and f["fail"]["call"] == "read" else 0
                 for c, v, rv in zip(cols, row[2:], rrow[2:]):
                     cname = c.split("(")[0]
-                    if cname == "is_shebang":
+                    if cname in XCOLS:
+                        # attributes are fetched through an open file: lost with a failing open, untouched by a failing read
+                        okv = v in (b"", b"false") if "open" in hit else v == rv
+                    elif cname == "is_shebang":
                         okv = v in (b"false", b"") or (off >= 2 and v == rv)
                     elif cname == "contains" and rv == b"":
                         okv = v == b""
